@@ -59,8 +59,8 @@ func (p *diffProp) family(tier string, idx int) (famSpec, int) {
 	panic("case index out of range")
 }
 
-// sampleConfigs: quick = every variant with 2 sampled configurations (where it
-// has more than one), thorough = all configurations.
+// sampleConfigs: quick = every variant with 2 configurations (where it has more than
+// one): the most parallel one and one other at random; thorough = all configurations.
 func sampleConfigs(r *rand.Rand, tier string, ok func(v string) bool) []config {
 	var out []config
 	for _, v := range variantNames {
@@ -72,12 +72,10 @@ func sampleConfigs(r *rand.Rand, tier string, ok func(v string) bool) []config {
 			out = append(out, cs...)
 			continue
 		}
-		i := r.Intn(len(cs))
+		// the most parallel configuration (most in flight at once) plus one other at random
+		i := len(cs) - 1
 		j := r.Intn(len(cs) - 1)
-		if j >= i {
-			j++
-		}
-		out = append(out, cs[i], cs[j])
+		out = append(out, cs[j], cs[i])
 	}
 	return out
 }
@@ -186,7 +184,7 @@ func init() {
 			{Name: "regress", Quick: len(regressCases), Thorough: len(regressCases), Gen: famRegress, Opts: ls, AllCfg: true},
 			{Name: "mixed", Quick: 400, Thorough: 20000, Gen: famMixed, Opts: ls},
 		},
-		rule:   "programs drawn from family 'mixed' (10-230 instructions, all 45 mnemonics, loads/stores over 0.5-8 KB, forward branches with shadows, j/jal/jalr call-return, down-counting loops, ret / fall-off / end label) with boundary-biased initial registers and random memory; each run on every variant (quick: 2 sampled EU/WU/core configurations per variant, thorough: all 81). A case is non-trivial when the reference executes >= 5 instructions and has a taken branch, a memory access or a register written twice; distinct = distinct hash of program text + initial state.",
+		rule:   "programs drawn from family 'mixed' (10-230 instructions, all 45 mnemonics, loads/stores over 0.5-8 KB, forward branches with shadows, j/jal/jalr call-return, down-counting loops, ret / fall-off / end label) with boundary-biased initial registers and random memory; each run on every variant (quick: per variant the most parallel configuration and one other at random, thorough: all 81). A case is non-trivial when the reference executes >= 5 instructions and has a taken branch, a memory access or a register written twice; distinct = distinct hash of program text + initial state.",
 		assume: []string{diffAssume, "logical tick budget 8*309*(executed+length+64) loop iterations decides termination"},
 		minEv:  []string{"executed", "flushes", "forwards"},
 	})
